@@ -33,8 +33,9 @@ def strip_ns(tag):
 
 
 class Widget(object):
-    def __init__(self, path, kind, speak, exports, maxchars, comb, caption):
+    def __init__(self, path, kind, speak, exports, maxchars, comb, caption, speaks=()):
         self.path, self.kind, self.speak, self.exports, self.maxchars, self.comb, self.caption = path, kind, speak, exports, maxchars, comb, caption
+        self.speaks = list(speaks) or ([speak] if speak else [])      # every <speak> of the field; .speak is the first (current) one
 
     def __repr__(self):
         return f'Widget({self.path}, {self.kind}, {self.exports}, max={self.maxchars}, speak={self.speak[:40]!r})'
@@ -81,6 +82,7 @@ def xfa_widgets(pdf_path):
 
 def widget_of(f, path):
     kind, exports, maxchars, comb, speak, caption = 'text', [], None, None, '', ''
+    speaks = []
     for el in f.iter():
         t = strip_ns(el.tag)
         if t == 'checkButton':
@@ -92,7 +94,11 @@ def widget_of(f, path):
         elif t == 'comb':
             comb = int(el.get('numberOfCells') or 0) or None
         elif t == 'speak':
-            speak = ' '.join((el.text or '').split())
+            # a field may carry a second, stale <speak> of an earlier revision (the dependents boxes of Form 1040): the first one is current
+            tx = ' '.join((el.text or '').split())
+            if tx:
+                speaks.append(tx)
+            speak = speak or tx
         elif t == 'text' and el.get('maxChars'):
             maxchars = int(el.get('maxChars'))
     for el in f:
@@ -104,7 +110,7 @@ def widget_of(f, path):
                     maxchars = int(t.get('maxChars'))
         if strip_ns(el.tag) == 'caption':
             caption = ' '.join(''.join(el.itertext()).split())
-    return Widget(path, kind, speak, exports, maxchars, comb, caption)
+    return Widget(path, kind, speak, exports, maxchars, comb, caption, speaks)
 
 
 @functools.lru_cache(maxsize=None)
